@@ -77,7 +77,7 @@ def setup():
         return 2
     # every spec must parse
     for f in sorted(os.listdir(SPEC)):
-        if f.endswith(".tla"):
+        if f.endswith(".tla") and not f.startswith("Ind_"):     # (Ind_*: Apalache modules, not on SANY's path)
             rc, out = sh(["tla-sany", f], cwd=SPEC, timeout=300)
             if "Semantic errors" in out or "Could not parse" in out or "***Parse Error***" in out:
                 print(f"spec {f} does not parse:\n{out[-2000:]}")
